@@ -23,7 +23,8 @@ CFG = dict(
     translators=[("lockscan", "Gen/Gen_LockEvents.v")],
     extra=["c20hooks.race_stress"],
     shard=120,
-    rule="round 6: overlapping web requests with different no-match filters, the errors box of every page parsed back and compared with the "
+    rule="round 7: the FIRST /download requests of a fresh process together (and mixed with pages) on a 20,000-function profile, every body gunzipped, "
+         "parsed back and compared with the profile; round 6: overlapping web requests with different no-match filters, the errors box of every page parsed back and compared with the "
          "message list of its own request; round 5: the DEFAULT UI (stdUI) printed to by 1-16 goroutines and by a 24-source invocation with Options.UI nil (whole lines, compared with "
          "one-at-a-time runs); lock-free settings readers and page loads during saves with the settings file regular / symlinked / dangling / in a symlinked directory; "
          "end-to-end: driver.PProf with a real flag set and the DEFAULT transport on 2-8 sources of mixed kinds (http, https+insecure, https with an "
